@@ -5,6 +5,7 @@ import random
 from concurrent.futures import ThreadPoolExecutor
 
 import vlib
+import sessions
 from vlib import log
 
 CHECKS = {}
@@ -153,6 +154,215 @@ def crash_mod(ctx, vh, requests, label, p):
                           {"kind": "mod", "request": r, "output": q.stdout[-3000:], "label": label})
             return
     raise vlib.ToolError("vh mod failed but no single request reproduces it:\n" + p.stdout[-3000:])
+
+
+# ---------------------------------------------------------------------------------------
+# CLI-level: run session scripts on the real Cli, validate the recorded trace with CliTrace
+
+def exec_scripts(ctx, vh, scripts, label, focus, raw=False):
+    """Run scripts through `vh cli`; returns path of the trace. A crash (abort / signal) of the
+    code under test is attributed to its session; the remaining scripts are then run too."""
+    trace = os.path.join(ctx.workdir, label + ".trace.ndjson")
+    open(trace, "w").close()
+    todo = scripts
+    part = 0
+    while todo:
+        part += 1
+        sp = os.path.join(ctx.workdir, "%s.scripts%d.ndjson" % (label, part))
+        tp = os.path.join(ctx.workdir, "%s.trace%d.ndjson" % (label, part))
+        with open(sp, "w") as f:
+            for sc in todo:
+                f.write(json.dumps(sc, separators=(",", ":")) + "\n")
+        import subprocess
+        p = subprocess.run([vh, "cli", sp, tp] + (["--raw"] if raw else []), stdout=subprocess.PIPE, stderr=subprocess.PIPE, text=True, timeout=3600)
+        with open(tp) as f, open(trace, "a") as g:
+            for l in f:
+                g.write(l)
+        os.remove(tp)
+        os.remove(sp)
+        if p.returncode == 0:
+            break
+        # crashed: last BEGIN without END
+        begun = None
+        for l in p.stderr.splitlines():
+            if l.startswith("BEGIN "):
+                begun = int(l.split()[1])
+            elif l.startswith("END "):
+                begun = None
+        if begun is None:
+            raise vlib.ToolError("vh cli failed without an open session:\n" + p.stderr[-3000:])
+        idx = next(i for i, sc in enumerate(todo) if sc["sid"] == begun)
+        msg = "\n".join(l for l in p.stderr.splitlines() if not l.startswith(("BEGIN", "END")))[-1500:]
+        if focus in ("C03", "C14", "ALL"):
+            ctx.violation({"kind": "crash", "conjunct": "no panic / abort", "input": compact_script(todo[idx])},
+                          {"kind": "cli", "focus": focus, "script": todo[idx], "crash": msg, "exit": p.returncode})
+        else:
+            log("[crash ignored under focus %s] session %d: %s" % (focus, begun, msg[-300:]))
+        ctx.extra["crashed_sessions"] = ctx.extra.get("crashed_sessions", 0) + 1
+        todo = todo[idx + 1:]
+    return trace
+
+
+def compact_script(sc):
+    """Short signature of a script: config + the bytes / calls"""
+    out = []
+    for st in sc["steps"]:
+        if st["ev"] == "byte":
+            out.append(st["b"])
+        elif st["ev"] == "write":
+            out.append("write")
+        else:
+            out.append("prompt%d" % st["p"])
+    return {"cmd": sc["cfg"].get("cmd"), "hcap": sc["cfg"].get("hcap"), "set": sc["cfg"].get("set"), "steps": out}
+
+
+def split_sessions(trace, nshards, workdir, label, focus, ctx):
+    """Split a trace into shards at session boundaries; strip panic records (reported for C03/C14)."""
+    sessions = []
+    cur = []
+    with open(trace) as f:
+        for l in f:
+            if '"ev":"init"' in l:
+                if cur:
+                    sessions.append(cur)
+                cur = [l]
+            elif '"ev":"panic"' in l:
+                rec = json.loads(l)
+                if cur:
+                    sid = json.loads(cur[0])["sid"]
+                else:
+                    sid = rec["sid"]
+                cur.append(("PANIC", rec))
+            else:
+                cur.append(l)
+    if cur:
+        sessions.append(cur)
+    return sessions
+
+
+def validate_cli(ctx, vh, scripts, focus, label, shards=8, max_viol=6, raw=False):
+    by_sid = {sc["sid"]: sc for sc in scripts}
+    trace = exec_scripts(ctx, vh, scripts, label, focus, raw=raw)
+    sessions = split_sessions(trace, shards, ctx.workdir, label, focus, ctx)
+    os.remove(trace)
+    clean = []
+    for sess in sessions:
+        lines = []
+        for l in sess:
+            if isinstance(l, tuple):
+                rec = l[1]
+                sc = by_sid.get(rec["sid"])
+                if focus in ("C03", "C14", "ALL"):
+                    ctx.violation({"kind": "panic", "conjunct": "no panic / abort", "msg": rec.get("msg", "")[:200],
+                                   "input": compact_script(sc) if sc else None},
+                                  {"kind": "cli", "focus": focus, "script": sc, "panic": rec})
+                else:
+                    log("[panic ignored under focus %s] session %s: %s" % (focus, rec["sid"], rec.get("msg", "")[:200]))
+                ctx.extra["panicked_sessions"] = ctx.extra.get("panicked_sessions", 0) + 1
+            else:
+                lines.append(l)
+        if lines:
+            clean.append(lines)
+    nev = sum(len(s) for s in clean)
+    ctx.traces += len(clean)
+    ctx.events += nev
+    if clean:
+        mid = clean[len(clean) // 2]
+        ctx.sample({"trace_record": json.loads(mid[min(len(mid) - 1, 2)])})
+    if not clean:
+        return
+    shards = max(1, min(shards, len(clean), max(1, nev // 3000)))
+    buckets = [[] for _ in range(shards)]
+    sizes = [0] * shards
+    for sess in sorted(clean, key=len, reverse=True):
+        i = sizes.index(min(sizes))
+        buckets[i].append(sess)
+        sizes[i] += len(sess)
+
+    def work(k):
+        sess_list = buckets[k]
+        nv = 0
+        while sess_list and nv < max_viol and not ctx.too_many():
+            path = os.path.join(ctx.workdir, "%s.shard%d.ndjson" % (label, k))
+            with open(path, "w") as f:
+                for sess in sess_list:
+                    f.writelines(sess)
+            res = vlib.tlc_validate(ctx.workdir, "CliTrace", path, {"FOCUS": focus})
+            os.remove(path)
+            if res["accepted"]:
+                return
+            n = res["n_accepted"] + 1
+            # locate session
+            acc = 0
+            for si, sess in enumerate(sess_list):
+                if n <= acc + len(sess):
+                    rec = json.loads(sess[n - acc - 1])
+                    sc = by_sid.get(rec["sid"])
+                    tag = (res["failed_tags"] or ["?"])[-1]
+                    ctx.violation({"kind": "cli", "conjunct": tag, "focus": focus, "at": rec.get("i"),
+                                   "input": compact_script(sc) if sc else None},
+                                  {"kind": "cli", "focus": focus, "script": sc, "record": rec, "at": rec.get("i"),
+                                   "failed": res["failed_tags"], "detail": res["detail"]})
+                    sess_list = sess_list[si + 1:]
+                    nv += 1
+                    break
+                acc += len(sess)
+            else:
+                raise vlib.ToolError("rejected record index out of range")
+
+    with ThreadPoolExecutor(max_workers=min(shards, 12)) as ex:
+        list(ex.map(work, range(shards)))
+
+
+# ---------------------------------------------------------------------------------------
+# design-level model of the whole CLI (MC_Cli) and its paths as session scripts
+
+def mc_cli_cfg(c, emit=True):
+    chars = "{%s}" % ", ".join(str(x) for x in c["Chars"])
+    b = lambda v: "TRUE" if v else "FALSE"
+    return ("SPECIFICATION Spec\nCONSTANTS\n  CmdCap = %d\n  HistCap = %d\n  Chars = %s\n  NameSet = \"%s\"\n"
+            "  HistOn = %s\n  AcOn = %s\n  HelpOn = %s\n  WithApi = %s\nVIEW View\n%sINVARIANT Inv\nINVARIANT SyncInv\n"
+            "PROPERTY EnterProp\nCHECK_DEADLOCK FALSE\n" % (
+                c["CmdCap"], c["HistCap"], chars, c.get("NameSet", "tiny"), b(c.get("HistOn", True)),
+                b(c.get("AcOn", True)), b(c.get("HelpOn", True)), b(c.get("WithApi", False)),
+                "ACTION_CONSTRAINT Emit\n" if emit else ""))
+
+
+def mc_cli_scripts(ctx, consts, rng, limit=None, sid0=1000000, workers=6):
+    """Model-check MC_Cli for `consts`; return session scripts, one per explored transition
+    (a shortest path to its source state followed by the event)."""
+    res = vlib.tlc_mc(ctx.workdir, "MC_Cli", mc_cli_cfg(consts), workers=workers, timeout=1500)
+    res["constants"] = consts
+    ctx.add_mc(res)
+    prompts = ["".join(chr(c) for c in p) for p in res["lines"]["P"][0]]
+    pidx = [sessions.PROMPTS.index(p) for p in prompts]
+
+    def conv_chunks(cs):
+        return [{"m": c["m"], "t": utf8s(c["t"])} for c in cs]
+
+    st = []
+    for sc in res["lines"]["S"][0]:
+        hs = {}
+        if sc["chunks"]:
+            hs["chunks"] = conv_chunks(sc["chunks"])
+        if sc["setp"]:
+            hs["p"] = sessions.PROMPTS.index("".join(chr(c) for c in sc["p"]))
+        st.append(hs)
+    wt = [conv_chunks(w) for w in res["lines"]["W"][0]]
+    paths = res["T"]
+    total = len(paths)
+    if limit is not None and total > limit:
+        paths = rng.sample(paths, limit)
+    cfg = {"cmd": consts["CmdCap"], "hcap": consts["HistCap"], "set": consts.get("NameSet", "tiny"), "prompt": 0}
+    scripts = [sessions.path_to_script(sid0 + i, p, cfg, st, wt, pidx) for i, p in enumerate(paths)]
+    ctx.extra.setdefault("mc_cli_transitions_total", 0)
+    ctx.extra["mc_cli_transitions_total"] += total
+    ctx.extra.setdefault("mc_cli_transitions_replayed", 0)
+    ctx.extra["mc_cli_transitions_replayed"] += len(paths)
+    ctx.replayed += len(paths)
+    if scripts:
+        ctx.sample({"tlc_path": paths[len(paths) // 2]})
+    return scripts
 
 
 # ---------------------------------------------------------------------------------------
@@ -347,6 +557,15 @@ def c05(ctx):
     ctx.sample({"tlc_path": reqs[len(reqs) // 2]})
     reqs += random_editor_reqs(rng, 300 if ctx.tier == "quick" else 8000, [0, 1, 2, 3, 4, 5, 8, 13, 16, 31, 64])
     run_mod(ctx, vh, reqs, "editor", shards=8)
+    # the same through the real Cli: every transition of the composite model, and random sessions
+    q = ctx.tier == "quick"
+    scripts = []
+    for consts in ([dict(SMALL, WithApi=False)] if q else [dict(MED, WithApi=False), dict(BIG, WithApi=False)]):
+        scripts += mc_cli_scripts(ctx, consts, rng, limit=1500 if q else 100000, sid0=len(scripts) + 1)
+    prof = {"cmd": [0, 1, 2, 3, 4, 5, 6, 7, 8, 16, 64], "hcap": [0, 4, 16], "sets": ALLSETS, "steps": (10, 80),
+            "alphabet": ALLCH + sessions.W1, "w": {"char": 40, "bs": 14, "left": 14, "right": 10, "up": 3, "down": 2, "tab": 3, "enter": 3, "word": 3}}
+    scripts += sessions.gen_sessions(rng, 600 if q else 20000, prof, sid0=len(scripts) + 1)
+    validate_cli(ctx, vh, scripts, "C05", "c05", shards=12)
     return ctx.finish("closed state graph of Editor for every buffer size in %s over one character of each UTF-8 length, every "
                       "transition replayed on the real Editor through its shortest path; random edit sessions at sizes up to 64" % caps)
 
@@ -392,6 +611,16 @@ def c10(ctx):
     ctx.sample({"tlc_path": reqs[len(reqs) // 2]})
     reqs += random_history_reqs(rng, 300 if ctx.tier == "quick" else 8000, [0, 1, 2, 3, 4, 5, 7, 8, 11, 16, 33, 64])
     run_mod(ctx, vh, reqs, "history", shards=8)
+    # through the real Cli: submissions and Up/Down at every point
+    q = ctx.tier == "quick"
+    scripts = []
+    for consts in ([dict(SMALL, WithApi=False)] if q else [dict(MED, WithApi=False), dict(BIG, WithApi=False)]):
+        scripts += mc_cli_scripts(ctx, consts, rng, limit=1500 if q else 100000, sid0=len(scripts) + 1)
+    prof = {"cmd": [1, 2, 3, 5, 8, 16, 64], "hcap": [0, 1, 2, 3, 4, 5, 7, 9, 16, 33, 64], "sets": ["raw", "leds"], "steps": (20, 120),
+            "alphabet": [0x61, 0x62, 0x63, 0xE9, 0x4E2D, 0x1F600], "enter_forms": ENTER_FORMS,
+            "w": {"char": 30, "bs": 4, "left": 3, "right": 2, "up": 16, "down": 10, "tab": 1, "enter": 16, "word": 2, "space": 3}}
+    scripts += sessions.gen_sessions(rng, 600 if q else 20000, prof, sid0=len(scripts) + 1)
+    validate_cli(ctx, vh, scripts, "C10", "c10", shards=12)
     return ctx.finish("closed state graph of History for every buffer size in %s over a pool of 8 lines (multi-byte, empty, "
                       "never-fitting), every transition replayed on the real History; declarative retention law checked at "
                       "spec level; random sessions at sizes up to 64" % hcaps)
@@ -606,6 +835,122 @@ def c02(ctx):
 
 
 # ---------------------------------------------------------------------------------------
+# CLI-level checks
+
+SMALL = {"CmdCap": 2, "HistCap": 3, "Chars": [97, 233], "NameSet": "tiny"}
+MED = {"CmdCap": 3, "HistCap": 4, "Chars": [97, 32, 233], "NameSet": "tiny"}
+BIG = {"CmdCap": 4, "HistCap": 6, "Chars": [97, 98, 32, 233], "NameSet": "tiny"}
+ENTER_FORMS = [[13], [13], [10], [13, 10], [10, 13]]
+SIZES_CMD = [0, 1, 2, 3, 4, 5, 8, 13, 16, 40, 64]
+SIZES_HIST = [0, 1, 2, 3, 5, 9, 16, 33, 64]
+ALLSETS = ["leds", "mixed", "raw", "grouped", "tiny"]
+
+
+def cli_property(ctx, focus, mc_consts, mc_limit, profiles, rule, shards=12):
+    vh = vlib.build_harness()
+    rng = random.Random(ctx.seed)
+    scripts = []
+    sid = 1
+    for consts in mc_consts:
+        sc = mc_cli_scripts(ctx, consts, rng, limit=mc_limit, sid0=sid)
+        scripts += sc
+        sid += len(sc)
+    for n, prof in profiles:
+        sc = sessions.gen_sessions(rng, n, prof, sid0=sid)
+        scripts += sc
+        sid += n
+    validate_cli(ctx, vh, scripts, focus, focus.lower(), shards=shards)
+    ctx.extra["sessions"] = len(scripts)
+    return ctx.finish(rule)
+
+
+@check("C01")
+def c01(ctx):
+    q = ctx.tier == "quick"
+    prof = {"cmd": SIZES_CMD, "hcap": SIZES_HIST, "sets": ALLSETS, "prompts": [0, 1, 2], "steps": (10, 70),
+            "alphabet": ALLCH + sessions.W1, "enter_forms": ENTER_FORMS, "hs_out": 0.3, "hs_prompt": 0.2,
+            "w": {"word": 12, "enter": 10, "quote": 4, "dash": 4, "space": 8}}
+    tight = dict(prof, cmd=[0, 1, 2, 3], hcap=[0, 1, 2, 3], steps=(10, 40))
+    return cli_property(ctx, "C01",
+                        [dict(SMALL, WithApi=False)] if q else [dict(MED, WithApi=False), dict(BIG, WithApi=False)],
+                        2000 if q else 150000,
+                        [(700 if q else 20000, prof), (300 if q else 10000, tight)],
+                        "every transition (quick: a seeded sample) of the closed MC_Cli graphs replayed on the real Cli through its "
+                        "shortest path, and random sessions (all keys, all four terminator forms, characters of every length, "
+                        "buffers 0..64); every process_byte call validated by TLC: handler calls = Classify(Tokenize(line before "
+                        "Enter)) exactly once iff a token and no help request, none for any other key; line empty and one fresh "
+                        "prompt afterwards")
+
+
+@check("C06")
+def c06(ctx):
+    q = ctx.tier == "quick"
+    prof = {"cmd": SIZES_CMD, "hcap": SIZES_HIST, "sets": ALLSETS, "prompts": [0, 1, 2, 3, 4, 5], "steps": (10, 70),
+            "alphabet": sessions.W1, "hs_out": 0.4, "hs_prompt": 0.3,
+            "w": {"word": 10, "enter": 6, "write": 6, "prompt": 5, "left": 14, "right": 8, "tab": 8, "up": 8, "down": 5}}
+    tight = dict(prof, cmd=[0, 1, 2, 3, 4], hcap=[0, 2, 5], steps=(8, 40))
+    return cli_property(ctx, "C06",
+                        [dict(SMALL, WithApi=True)] if q else [dict(MED, WithApi=True)],
+                        2500 if q else 200000,
+                        [(700 if q else 20000, prof), (300 if q else 10000, tight)],
+                        "MC_Cli with write / set_prompt / handler prompt changes interleaved at every point (design level: the "
+                        "modelled output protocol keeps Terminal in Sync in every reachable state); its transitions replayed on the "
+                        "real Cli, plus random sessions over width-1 characters of every UTF-8 length and six prompts; after every "
+                        "call TLC feeds the bytes actually emitted to the ECMA-48 Terminal model and requires row = prompt + line, "
+                        "cursor column = prompt + cursor")
+
+
+@check("C13")
+def c13(ctx):
+    q = ctx.tier == "quick"
+    texts = ["x", "", "\n", "\r\n", "x\n", "x\r\n", "\nx", "x\ny", "x\n\ny", "\n\n", "xy\r\nz", "ж", "a b"]
+    prof = {"cmd": [0, 2, 5, 8, 16, 40], "hcap": [0, 5, 16], "sets": ALLSETS, "prompts": [0, 1, 2, 3], "steps": (8, 50),
+            "alphabet": sessions.W1, "hs_out": 0.9, "hs_prompt": 0.2, "texts": texts,
+            "w": {"word": 14, "enter": 14, "write": 12, "prompt": 2, "left": 10, "char": 25}}
+    return cli_property(ctx, "C13",
+                        [dict(SMALL, WithApi=True)] if q else [dict(MED, WithApi=True)],
+                        2000 if q else 100000,
+                        [(1000 if q else 30000, prof)],
+                        "handler output and Cli::write with random chunkings (<= 3 calls of write_str / writeln_str / ufmt / "
+                        "core::fmt, texts over {x, LF, CR LF, empty}) at random points of sessions and at every point of the MC_Cli "
+                        "graphs; TLC checks bytes between handler begin/end = Conv(text), rows shown = row before + Lines(text), "
+                        "prompt on a fresh row at column 0, line and cursor intact after Cli::write")
+
+
+@check("C15")
+def c15(ctx):
+    q = ctx.tier == "quick"
+    prof = {"cmd": SIZES_CMD, "hcap": SIZES_HIST, "sets": ALLSETS, "prompts": [0, 1, 2, 3], "steps": (10, 60),
+            "alphabet": ALLCH + sessions.W1, "enter_forms": ENTER_FORMS, "hs_out": 0.5, "hs_prompt": 0.2, "partial": [0, 0, 7, 99],
+            "w": {"word": 14, "enter": 10, "write": 6, "prompt": 4, "tab": 8, "up": 8, "down": 5}}
+    return cli_property(ctx, "C15",
+                        [dict(SMALL, WithApi=True)] if q else [dict(MED, WithApi=True)],
+                        2000 if q else 100000,
+                        [(1000 if q else 30000, prof)],
+                        "all session kinds (keys, completion, recall, handler output, help requests, Cli::write, set_prompt, sinks "
+                        "that accept writes only partially); after every successful call TLC requires that no write follows the "
+                        "last flush in the recorded sink operations")
+
+
+@check("C11")
+def c11(ctx):
+    q = ctx.tier == "quick"
+    # Tab at random cursor positions of lines made of name prefixes and blanks, in buffers that
+    # leave every amount of room
+    prof = {"cmd": [1, 2, 3, 4, 5, 6, 7, 8, 9, 10, 12, 16, 40], "hcap": [0, 16], "sets": ALLSETS, "steps": (6, 40),
+            "alphabet": [0x61, 0x67, 0x73, 0x68, 0x65, 0x436, 0x4E2D, 0x1F600, 0x78],
+            "w": {"char": 10, "bs": 6, "left": 14, "right": 8, "up": 2, "down": 1, "tab": 22, "enter": 4, "word": 30, "space": 10}}
+    return cli_property(ctx, "C11",
+                        [dict(SMALL, WithApi=False)] if q else [dict(MED, WithApi=False), dict(BIG, WithApi=False)],
+                        1500 if q else 100000,
+                        [(1500 if q else 40000, prof)],
+                        "Tab pressed at random cursor positions of lines built from prefixes of command names and blanks, over five "
+                        "command sets (shared prefixes non-adjacent in declaration order, one name a prefix of another, multi-byte "
+                        "names differing in the last octet, groups with a hidden member, names interacting with `help`) in buffers "
+                        "leaving every amount of room; every Tab validated by TLC against Autocomplete!Complete over the SET of names")
+
+
+# ---------------------------------------------------------------------------------------
 
 def replay(pid, path):
     """Re-execute a replay file against the current tree and validate again."""
@@ -625,4 +970,13 @@ def replay(pid, path):
         print(res.get("detail", ""))
         print("VIOLATION property=%s replay=%s" % (pid, path))
         return 1
+    if rp.get("kind") == "cli":
+        before = len(ctx.violations)
+        ctx.max_files = 0
+        validate_cli(ctx, vh, [rp["script"]], rp.get("focus", "ALL"), "replay", shards=1)
+        if len(ctx.violations) > before:
+            print("VIOLATION property=%s replay=%s" % (pid, path))
+            return 1
+        print("replay: accepted (no violation on the current tree)")
+        return 0
     raise vlib.ToolError("unknown replay kind")
